@@ -87,12 +87,15 @@ def run(ctx):
             x[it % 7 // 3] = 0                                   # an empty x or y polarisation
         if it % 29 == 28:
             x[:] = 0                                             # a dark field
+        if it % 8 == 7:
+            x = x.real.copy() if it % 16 == 7 else np.round(x.real * 20 / np.abs(x).max()).astype(np.int64)      # a field stored with a real / integer dtype
         if n % gv.sps == 0 and it % 3 == 0:
             with warnings.catch_warnings():
                 warnings.simplefilter("ignore")
                 gv(sps=gv.sps, R=gv.R, N=n // gv.sps)          # the global grid has exactly the record's length
         sig = optical_signal(x if npol == 2 else x[0])
         sig.signal.flags.writeable = False
+        x = np.asarray(x, dtype=complex)
         sc = 1.0 / (fs * 1e-12) ** 2 * rnd.choice([0.01, 1, 30])        # ps^2 scale that matters at this fs
         D1, D2 = rnd.uniform(-1, 1) * sc, rnd.uniform(-1, 1) * sc
         with deadline(120):
@@ -134,6 +137,35 @@ def run(ctx):
                 events.append({"kind": "shape", "same": bool(type(o) is optical_signal and o.n_pol == npol and len(o) == n and o.signal.shape == sig.signal.shape)})
                 meta.append(("shape", kind))
         ctx.case(("laws", n % 2, n > 100, npol, it % 2, al > 0, b3 != 0, it % 5, bool(np.any(np.all(x == 0, axis=-1)))))
+    # one long record (more than 2^16 samples), broadband, strongly dispersed: the filter is still the one of the record's own frequency grid
+    fs = setfs(1)
+    nlong = 2 ** 17 if T else 70001
+    rs = np.random.RandomState(77)
+    xl = (rs.randn(nlong) + 1j * rs.randn(nlong)) * 0.05
+    sigl = optical_signal(xl)
+    Dl = 3.0 / (fs * 1e-12) ** 2 * 40
+    with deadline(300):
+        law("FIBER(L,b2)=DM(b2*L)", FIBER(sigl, 50.0, beta_2=Dl / 50.0).signal, DM(sigl, Dl).signal)
+        law("two-spans=one-span", FIBER(FIBER(sigl, 20.0, 0.0, Dl / 50.0), 30.0, 0.0, Dl / 50.0).signal, FIBER(sigl, 50.0, 0.0, Dl / 50.0).signal)
+        wl_ = 2 * np.pi * np.fft.fftfreq(nlong) * fs * 1e-12
+        law("lattice-output", DM(sigl, Dl).signal, np.fft.ifft(np.fft.fft(xl) * np.exp(-0.5j * Dl * wl_ ** 2)))
+    ctx.case(("long-record", nlong))
+    # the same object used again after its samples were edited in place: the element acts on the samples held now
+    for it in range(4):
+        fs = setfs(it % 2)
+        rs = np.random.RandomState(900 + it)
+        npol = 1 + it % 2
+        xe = (rs.randn(npol, 96) + 1j * rs.randn(npol, 96)) * 0.1
+        obj = optical_signal(xe if npol == 2 else xe[0])
+        D1 = 30.0 / (fs * 1e-12) ** 2 * 1e-2
+        with deadline(120):
+            DM(obj, D1); FIBER(obj, 5.0, 0.1, D1 / 5.0)
+            obj.signal *= 3
+            obj.signal[..., ::2] = obj.signal[..., ::2] * 1j
+            fresh = optical_signal(np.array(obj.signal))
+            law("DM(D1)oDM(D2)=DM(D1+D2)", DM(obj, -2 * D1).signal, DM(fresh, -2 * D1).signal)
+            law("FIBER(L,b2)=DM(b2*L)", FIBER(obj, 5.0, 0.0, D1 / 5.0).signal, DM(fresh, D1).signal)
+        ctx.case(("edited-in-place", npol))
     # very lossy spans in each branch of FIBER (dispersionless closed form, second-order only, third-order only): power law and span additivity
     for it, (al, b2, b3, L, L2) in enumerate([(2.0, 0.0, 0.0, 75.0, 45.0), (1.5, 0.0, 0.0, 160.0, 160.0), (3.0, -20.0, 0.0, 60.0, 40.0), (2.5, 0.0, 0.3, 50.0, 70.0)]):
         fs = setfs(it % 2)
